@@ -105,28 +105,28 @@ CHECKS = {
  "C01": dict(
   engine="E2",
   technique="bounded exhaustive enumeration of designs (complete products over a design grammar), each generated by the real goa generators in a fresh process and type-checked with go build",
-  text="Every design of every E2 family (complete product type x location x requiredness on request and response side, ordered attribute pairs, status/tag responses, every validation keyword x nesting position x location) that goa's DSL evaluation accepts is generated with the real gen and example generators in a fresh process and every generated package is compiled (go build -gcflags=-e) against /repo's runtime packages; diagnostics are attributed to the design method whose generated function contains them. Exhaustive within the stated design envelope, so a template/type combination that yields uncompilable code is found; the suite never compiles generated code.",
+  text="Every design of every E2 family (complete product type x location x requiredness on request and response side, ordered attribute pairs, status/tag responses, every validation keyword x nesting position x location, and the deep type-structure families: OneOf unions, nesting depth 2-3, mutually recursive types, Reference inheritance, non-object whole bodies, validations at inner positions) that goa's DSL evaluation accepts is generated with the real gen and example generators in a fresh process and every generated package is compiled (go build -gcflags=-e) against /repo's runtime packages; diagnostics are attributed to the design method whose generated function contains them. Exhaustive within the stated design envelope, so a template/type combination that yields uncompilable code is found; the suite never compiles generated code.",
   design_ref="DESIGN.md section 3 C01, section 2 E2",
   note="Envelope = the families listed in the evidence notes; example code is compiled against a signature-compatible stub of goa.design/clue (not available offline); plugins and designs outside the envelope are not covered.",
  ),
  "C02": dict(
   engine="E2",
   technique="bounded exhaustive enumeration of (design, payload value) pairs executed through generated client -> in-memory HTTP wire -> generated server -> stub, compared with a reference model of locations and defaults",
-  text="For every accepted design of the L1 request families (complete product type x location x requiredness; ordered pairs over a reduced menu) and every valid payload value of the boundary menus (complete product per method), the payload handed to the generated client endpoint is compared with the payload received by the stub service behind the generated server, and the tapped server-side http.Request is checked attribute by attribute against the designed location (path segment, query key, header, cookie, JSON body key) and for undesigned query/body keys; a structural-feature family (all verbs, multiple routes, catch-all, map params, Body(attr)/Body(func), empty body, content types, primitive payloads) is driven the same way. In the thorough tier the same oracle is extended to HTTP (WebSocket) streaming endpoints (server, client, bidirectional and payload-carrying kinds x object, user type, string, int, array<string> elements) over loopback sockets: for every request sequence of length 0-3 over a 3-value alphabet (complete, plus every boundary value as a single message; bidirectional: complete product with the reply sequences under three fixed schedules) the scripted stub service must receive exactly the client messages in order followed by io.EOF, and the initial payload must arrive equal and in its designed location. Exhaustive within the envelope; both halves of the generated code are executed against each other, which no golden test does.",
+  text="For every accepted design of the L1 request families (complete product type x location x requiredness; ordered pairs over a reduced menu) and every valid payload value of the boundary menus (complete product per method), the payload handed to the generated client endpoint is compared with the payload received by the stub service behind the generated server, and the tapped server-side http.Request is checked attribute by attribute against the designed location (path segment, query key, header, cookie, JSON body key) and for undesigned query/body keys; a structural-feature family (all verbs, multiple routes, catch-all, map params, Body(attr)/Body(func), empty body, content types, primitive payloads) is driven the same way, and so is the deep type-structure family of JSON bodies (OneOf unions of primitives / user types / aliases as required and optional attributes, inside user types and arrays; user type in user type in array, maps of user types and of arrays of them, arrays of arrays and of maps, one type at several positions, mutually recursive types, defaults and required attributes inside optional inner objects; arrays, maps and primitive aliases as the whole body), where a union must travel as an object with the keys Type (alternative name) and Value (JSON text of its value). In the thorough tier the same oracle is extended to HTTP (WebSocket) streaming endpoints (server, client, bidirectional and payload-carrying kinds x object, user type, string, int, array<string> elements) over loopback sockets: for every request sequence of length 0-3 over a 3-value alphabet (complete, plus every boundary value as a single message; bidirectional: complete product with the reply sequences under three fixed schedules) the scripted stub service must receive exactly the client messages in order followed by io.EOF, and the initial payload must arrive equal and in its designed location. Exhaustive within the envelope; both halves of the generated code are executed against each other, which no golden test does.",
   design_ref="DESIGN.md section 3 C02, section 2 E2",
   note="In-memory wire (http.Request.Write -> http.ReadRequest -> goa muxer on a recorder) instead of sockets; equality normalisations listed in the evidence assumptions; streaming driven in the thorough tier only; multipart not driven.",
  ),
  "C03": dict(
   engine="E2",
   technique="bounded exhaustive enumeration of (design, result value) pairs executed through stub -> generated server -> wire -> generated client, compared with a reference model of status selection, locations and defaults",
-  text="For every accepted design of the L1 response families and the status/tag family and every valid result value (complete product per method), the result returned by the stub service is compared with the value returned by the generated client endpoint; the status code must be the one the reference selects (first response whose tag matches, else the untagged one), every attribute must sit in its designed header/cookie/body position, and exactly one WriteHeader is issued; XML/gob/text content types are compared by value. Thorough tier: for WebSocket streaming endpoints every reply sequence of length 0-3 must reach the client in order followed by io.EOF (including the empty stream), and the final result of client-streaming endpoints must arrive equal. Exhaustive within the envelope.",
+  text="For every accepted design of the L1 response families, the status/tag family and the deep type-structure family of JSON bodies (same shape menu as C02 on the result side) and every valid result value (complete product per method), the result returned by the stub service is compared with the value returned by the generated client endpoint; the status code must be the one the reference selects (first response whose tag matches, else the untagged one), every attribute must sit in its designed header/cookie/body position, and exactly one WriteHeader is issued; XML/gob/text content types are compared by value. Thorough tier: for WebSocket streaming endpoints every reply sequence of length 0-3 must reach the client in order followed by io.EOF (including the empty stream), and the final result of client-streaming endpoints must arrive equal. Exhaustive within the envelope.",
   design_ref="DESIGN.md section 3 C03, section 2 E2",
   note="Same trusted base as C02; viewed results are covered by C08; streaming driven in the thorough tier only.",
  ),
  "C04": dict(
   engine="E2",
   technique="bounded exhaustive enumeration of (design, boundary value / malformed encoding) pairs executed end to end, verdicts compared with an independent reference validator",
-  text="For every validation keyword x nesting position x location x requiredness design and every value on both sides of every boundary (classified by a reference validator written independently of goa), the stub service must be invoked exactly when the reference finds no violated constraint; a violating request must be answered 4xx with the violated rule's standard error name; hand-built malformed wire encodings (non-numeric text, overflow, wrong JSON type, invalid JSON, empty body, null for required) must be rejected before user code; constraint-violating results returned by the stub must be refused by the generated client. Exhaustive within the envelope.",
+  text="For every validation keyword x nesting position x location x requiredness design, every keyword x deep position design (field of a user type inside arrays, maps, other user types, mutually recursive types and OneOf alternatives; elements of nested collections; attributes inherited through Reference; arrays, maps and primitive aliases as the whole body; both request and response side) and every value on both sides of every boundary (classified by a reference validator written independently of goa), the stub service must be invoked exactly when the reference finds no violated constraint; a violating request must be answered 4xx with the violated rule's standard error name; hand-built malformed wire encodings (non-numeric text, overflow, wrong JSON type, invalid JSON, empty body, null for required) must be rejected before user code; constraint-violating results returned by the stub must be refused by the generated client. Exhaustive within the envelope.",
   design_ref="DESIGN.md section 3 C04, section 2 E2",
   note="Values whose delivery itself fails for C02 reasons (empty string outside the body, '/', '%' in path values) and values where nil vs empty collection makes requiredness undecidable are left out (counted in the evidence); format validity comes from constructive tables.",
  ),
